@@ -303,8 +303,17 @@ def _child(wd, case, wfd):
         os._exit(0)
 
 
-def _run_case(wd, case, timeout=120):
-    """One case in directory wd (which holds pristine inputs and nothing else)."""
+def _run_case(wd, case):
+    """One case in directory wd (which holds pristine inputs and nothing else).  A case
+    that was killed by the harness's own timeout or died without reporting is run once
+    more with a long timeout (an overloaded machine must not look like a defect)."""
+    res = _run_case_once(wd, case, 120)
+    if res["outcome"] in ("timeout", "crash"):
+        res = _run_case_once(wd, case, 900)
+    return res
+
+
+def _run_case_once(wd, case, timeout):
     if case.get("cfg") is not None:
         with open(os.path.join(wd, "c.cfg"), "w") as fh:
             fh.write(case["cfg"])
@@ -614,7 +623,7 @@ def _run(ck, pid, tier, thorough, pool):
                       "what": "vector enumeration: place + pairs + table", **res.summary()})
     ck.states += res.distinct
     ck.transitions += res.generated
-    walk, wres = generate(tier, "walk", depth=6, simulate="num=%d" % (2500 if thorough else 150), seed=common.SEED + 19)
+    walk, wres = generate(tier, "walk", depth=6, simulate="num=%d" % (1500 if thorough else 150), seed=common.SEED + 19)
     ck.models.append({"module": "CliGen", "cfg": "Family=walk (simulate)", "what": "random walks of 6 placement changes from the base vectors",
                       **wres.summary()})
     n_enum = len(vecs)
